@@ -1,5 +1,8 @@
 use super::*;
+#[cfg(not(lean_string_verif))]
 use alloc::alloc::{alloc, dealloc, realloc};
+#[cfg(lean_string_verif)]
+use crate::verif_hooks::{alloc, dealloc, realloc};
 use core::{alloc::Layout, hint, ptr, ptr::NonNull};
 
 #[cfg(not(loom))]
@@ -120,6 +123,8 @@ impl HeapBuffer {
     pub(super) fn as_str(&self) -> &str {
         let len = self.len();
         let ptr = self.ptr.as_ptr();
+        #[cfg(lean_string_verif)]
+        crate::verif_hooks::note(crate::verif_hooks::NOTE_READ, ptr, len);
         // SAFETY: HeapBuffer contains valid `len` bytes of UTF-8 string.
         unsafe { core::str::from_utf8_unchecked(slice::from_raw_parts(ptr, len)) }
     }
@@ -338,6 +343,8 @@ impl HeapBuffer {
     }
 
     fn header(&self) -> &Header {
+        #[cfg(lean_string_verif)]
+        crate::verif_hooks::note(crate::verif_hooks::NOTE_HEADER, self.ptr.as_ptr(), 0);
         unsafe { &*self.ptr.as_ptr().sub(HeapBuffer::header_offset()).cast() }
     }
 
